@@ -1207,7 +1207,7 @@ def run_batch(worlds, gen_bin, chost_bin, rng, ncases, jobs=16, sanitize=True, t
     """all phases for a list of WorldRun; returns (results, corr) where results[i] = dict per world"""
     from vlib import run_lines
     from concurrent.futures import ThreadPoolExecutor
-    gans = run_lines([gen_bin, "gen"], [w.gen_request() for w in worlds], timeout=timeout)
+    gans = par_lines([gen_bin, "gen"], [w.gen_request() for w in worlds], jobs, timeout)
     live = [w for w, a in zip(worlds, gans) if w.take_gen(a)]
     names = sorted({n for w in live for n in w.names_needed()})
     ids = run_lines([gen_bin, "ident"], [hx(n) for n in names], timeout=timeout)
@@ -1245,3 +1245,235 @@ def run_batch(worlds, gen_bin, chost_bin, rng, ncases, jobs=16, sanitize=True, t
         rof, w.nres = w.evaluate_resources()
         w.of += rof
     return live
+
+
+# ---------------------------------------------------------------------------------------------
+# C12: wasm32 build + componentization
+
+STUB = os.path.join(VERIF, "harness", "c-native", "wasm32-stub")
+CLANG = ["clang", "--target=wasm32-unknown-unknown", "-nostdlibinc", "-isystem", STUB, "-O1"]
+WARN = ["-Wall", "-Wextra", "-Werror", "-Wno-unused-parameter"]
+
+class WasmRun:
+    """one (world, configuration): generate, compile for wasm32, link, componentize, compare worlds"""
+    def __init__(self, name, witarg, opts, enc, workdir, origin, world="-"):
+        self.name, self.witarg, self.opts, self.enc, self.origin, self.world = name, witarg, opts, enc, origin, world
+        self.dir = os.path.join(workdir, name)
+        self.stage, self.msg = "gen", ""
+        self.ok = False
+
+    def gen_request(self): return f"{self.opts} {self.enc} {hx(self.witarg)} {self.world}"
+
+    def take_gen(self, ans):
+        if not ans.startswith("ok "):
+            self.stage = "gen-" + ans.split(" ")[0]
+            self.msg = unhx(ans.split(" ", 1)[1]) if " " in ans else ans
+            return False
+        self.gen = json.loads(ans[3:])
+        return True
+
+    def build(self, libc_o):
+        shutil.rmtree(self.dir, ignore_errors=True)
+        os.makedirs(self.dir)
+        snake = None
+        for n, t in self.gen["files"].items():
+            p = os.path.join(self.dir, n)
+            if isinstance(t, str): open(p, "w").write(t)
+            else: open(p, "wb").write(bytes.fromhex(t["hex"]))
+            if n.endswith(".h"): snake = n[:-2]
+        self.snake = snake
+        def sh(cmd):
+            p = subprocess.run(cmd, cwd=self.dir, stdout=subprocess.PIPE, stderr=subprocess.STDOUT, text=True)
+            return p.returncode, p.stdout
+        # 1. the generated bindings, with the warning set of crates/test/src/c.rs
+        self.stage = "clang-bindings"
+        rc, out = sh(CLANG + WARN + ["-I", ".", "-c", f"{snake}.c", "-o", "bindings.o"])
+        if rc != 0: self.msg = out[-2500:]; return
+        # 2. what must the user define?  (undefined, non-import symbols)
+        self.stage = "link-probe"
+        objs = ["bindings.o", libc_o, f"{snake}_component_type.o"]
+        rc, out = sh(["wasm-ld", "--no-entry", "--export-dynamic", "--no-gc-sections", "--error-limit=0"] + objs + ["-o", "probe.wasm"])
+        undef = re.findall(r"undefined symbol: (\w+)", out)
+        other = [l for l in out.split("\n") if "error" in l and "undefined symbol" not in l]
+        if other: self.msg = "\n".join(other)[:2500]; return
+        protos = parse_protos(self.gen["files"][f"{snake}.h"])
+        self.stage = "user-stubs"
+        U = [f'#include "{snake}.h"']
+        for s in dict.fromkeys(undef):
+            if s not in protos:
+                self.msg = f"undefined symbol {s} has no prototype in the header"; return
+            text = protos[s][2]
+            if text.startswith("extern "): text = text[len("extern "):]
+            U.append(f"{text} {{ __builtin_trap(); }}")
+        open(os.path.join(self.dir, "user.c"), "w").write("\n".join(U) + "\n")
+        self.stage = "clang-user"
+        rc, out = sh(CLANG + WARN + ["-Wc++-compat", "-I", ".", "-c", "user.c", "-o", "user.o"])
+        if rc != 0: self.msg = out[-2500:]; return
+        self.stage = "wasm-ld"
+        rc, out = sh(["wasm-ld", "--no-entry", "--export-dynamic", "--no-gc-sections", "--error-limit=0"] + objs + ["user.o", "-o", "module.wasm"])
+        if rc != 0: self.msg = out[-2500:]; return
+        self.stage = "componentize"
+        self.wasm = os.path.join(self.dir, "module.wasm")
+
+    def comp_request(self):
+        return f"{hx(self.wasm)} {hx(self.witarg)} {self.world} {self.enc}"
+
+    def take_comp(self, ans):
+        if not ans.startswith("ok "):
+            self.stage = "componentize-" + ans.split(" ")[0]
+            self.msg = unhx(ans.split(" ", 1)[1]) if " " in ans else ans
+            return
+        d = json.loads(ans[3:])
+        self.want, self.got = d["want"], d["got"]
+        self.stage = "world-compare"
+        def canon(w):
+            out = {}
+            for side in ("imports", "exports"):
+                items = []
+                for it in w[side]:
+                    if "iface" in it: items.append(("iface", it["iface"], tuple(it["funcs"])))
+                    elif "func" in it: items.append(("func", it["func"], it["sig"]))
+                    else: items.append(("type", it["type"], it["def"]))
+                out[side] = sorted(items)
+            return out
+        cw, cg = canon(self.want), canon(self.got)
+        # a component may import *less* than the world offers (unused imports are dropped); exports must be exact
+        missing_exports = [x for x in cw["exports"] if x not in cg["exports"]]
+        extra_exports = [x for x in cg["exports"] if x not in cw["exports"]]
+        extra_imports = [x for x in cg["imports"] if x not in cw["imports"] and x[0] != "type"]
+        # (an imported interface without functions only offers types: nothing to import)
+        missing_imports = [x for x in cw["imports"] if x not in cg["imports"] and x[0] != "type" and not (x[0] == "iface" and not x[2])]
+        self.diff = {"missing_exports": missing_exports, "extra_exports": extra_exports,
+                     "extra_imports": extra_imports, "missing_imports": missing_imports}
+        if missing_exports or extra_exports or extra_imports or missing_imports:
+            self.msg = json.dumps(self.diff)[:2500]
+            return
+        self.stage, self.ok = "done", True
+
+
+def wasm_batch(runs, gen_bin, workdir, jobs=16, timeout=900):
+    from vlib import run_lines
+    from concurrent.futures import ThreadPoolExecutor
+    os.makedirs(workdir, exist_ok=True)
+    libc_o = os.path.join(workdir, "libc.o")
+    p = subprocess.run(CLANG + ["-c", os.path.join(STUB, "libc.c"), "-o", libc_o], stdout=subprocess.PIPE, stderr=subprocess.STDOUT, text=True)
+    if p.returncode != 0: raise RuntimeError("stub libc does not compile: " + p.stdout)
+    ans = par_lines([gen_bin, "gen"], [r.gen_request() for r in runs], jobs, timeout)
+    live = [r for r, a in zip(runs, ans) if r.take_gen(a)]
+    with ThreadPoolExecutor(max_workers=jobs) as ex:
+        list(ex.map(lambda r: r.build(libc_o), live))
+    ready = [r for r in live if r.stage == "componentize"]
+    ans = par_lines([gen_bin, "componentize"], [r.comp_request() for r in ready], jobs, timeout)
+    for r, a in zip(ready, ans): r.take_comp(a)
+    return runs
+
+
+def par_lines(cmd, lines, jobs, timeout):
+    """run_lines over `jobs` server processes (order preserved)"""
+    from vlib import run_lines
+    from concurrent.futures import ThreadPoolExecutor
+    if not lines: return []
+    k = max(1, min(jobs, len(lines) // 8 or 1))
+    chunks = [lines[i::k] for i in range(k)]
+    with ThreadPoolExecutor(max_workers=k) as ex:
+        outs = list(ex.map(lambda ch: run_lines(cmd, ch, timeout=timeout), chunks))
+    res = [None] * len(lines)
+    for i, out in enumerate(outs):
+        for j, a in enumerate(out): res[i + j * k] = a
+    return res
+
+
+# ---------------------------------------------------------------------------------------------
+# C12: adversarial names.  Each world carries ONE adversarial feature; `expect` = the finding class
+# it exposes on the current tree (None = must build), `sig` = regex the failure message must match
+# for the failure to count as that class.
+
+C_KEYWORDS_IN_TABLE = ["auto", "break", "case", "char", "const", "continue", "default", "do", "double", "else", "enum", "extern",
+                       "float", "for", "goto", "if", "inline", "int", "long", "register", "return", "short", "signed", "sizeof",
+                       "static", "struct", "switch", "typedef", "union", "unsigned", "void", "volatile", "while", "asm"]
+WIT_KEYWORDS = {"use", "type", "func", "resource", "record", "flags", "variant", "enum", "bool", "string", "option", "result",
+                "future", "stream", "list", "tuple", "char", "static", "interface", "world", "import", "export", "package",
+                "include", "as", "from", "constructor", "async", "borrow", "own", "with", "map", "u8", "u16", "u32", "u64",
+                "s8", "s16", "s32", "s64", "f32", "f64", "error-context"}
+
+def wid(n): return "%" + n if n.lower() in WIT_KEYWORDS else n
+
+def adversarial_worlds(rng, n_random):
+    W = []
+    def add(name, cls, sig, body, why):
+        W.append({"name": name, "expect": cls, "sig": sig, "wit": "package t:t;\n" + body, "why": why})
+    def positions(nm):
+        """the same adversarial identifier in each position a WIT name reaches a C identifier"""
+        n = wid(nm)
+        return {
+            "field": f"interface i {{ record r {{ {n}: u32, x: string }} f: func(a: r) -> r; }}\nworld w {{ import i; export i; }}\n",
+            "param": f"interface i {{ f: func({n}: u32, y: string) -> u32; }}\nworld w {{ import i; export i; }}\n",
+            "case": f"interface i {{ variant v {{ {n}(u32), other(string) }} f: func(a: v) -> v; }}\nworld w {{ import i; export i; }}\n",
+            "func": f"interface i {{ {n}: func(a: u32) -> string; }}\nworld w {{ import i; export i; }}\n",
+            "type": f"interface i {{ record {n} {{ a: string }} f: func(a: {n}) -> {n}; }}\nworld w {{ import i; export i; }}\n",
+            "enum-case": f"interface i {{ enum e {{ {n}, other }} f: func(a: e) -> e; }}\nworld w {{ import i; export i; }}\n",
+            "flag": f"interface i {{ flags fl {{ {n}, other }} f: func(a: fl) -> fl; }}\nworld w {{ import i; export i; }}\n",
+            "resource": f"interface i {{ resource {n} {{ constructor(); m: func() -> u32; }} }}\nworld w {{ import i; export i; }}\n",
+            "interface": f"interface {n} {{ f: func(a: string) -> u32; }}\nworld w {{ import {n}; export {n}; }}\n",
+        }
+    IDENT_POS = ("field", "param", "case")        # positions spelled through to_c_ident without a namespace prefix
+    # 1. keywords the table knows: must build in every position
+    for kw in rng.sample(C_KEYWORDS_IN_TABLE, 6) + ["ret", "err", "new", "this", "bool", "true", "stdin"]:
+        for pos, body in positions(kw).items():
+            add(f"kw-{kw}-{pos}", None, None, body, f"escaped keyword `{kw}` as {pos}")
+    # 2. keywords the table misses
+    for kw in ("restrict", "typeof"):
+        for pos, body in positions(kw).items():
+            bad = pos in IDENT_POS
+            add(f"kwmiss-{kw}-{pos}", "c-keyword-not-escaped" if bad else None,
+                r"restrict requires|after 'typeof'|expected identifier|expected expression|expected member name" if bad else None,
+                body, f"C keyword `{kw}` (absent from to_c_ident) as {pos}")
+    # 3. upper-case spellings: looked up before case folding
+    for kw in rng.sample(["int", "char", "static", "const", "void", "if", "for", "struct", "return", "default"], 4):
+        for pos, body in positions(kw.upper()).items():
+            bad = pos in IDENT_POS
+            add(f"kwupper-{kw}-{pos}", "c-keyword-after-case-folding" if bad else None,
+                r"expected|cannot combine|declaration does not declare|requires a|invalid|type specifier|storage class" if bad else None,
+                body, f"upper-case `{kw.upper()}` as {pos}")
+    # 4. typedef names of <stdint.h>/<stddef.h> as parameter names
+    for nm, ty in (("int8-t", "s8"), ("uint8-t", "u8"), ("uint32-t", "u32"), ("int64-t", "s64"), ("size-t", "list<u8>")):
+        add(f"typedef-{nm}", "c-typedef-name-as-parameter", r"unknown type name|expected|not a function|redefinition|called object",
+            f"interface i {{ f: func({nm}: u32, b: {ty}) -> {ty}; }}\nworld w {{ import i; export i; }}\n",
+            f"parameter named `{nm}` shadows the typedef used by the next parameter")
+    # 5. fixed local names that are not allocated through Ns
+    add("fixed-ret-area", "c-fixed-local-name-collision", r"redefinition of 'ret_area'",
+        "interface i { f: func(ret-area: u32) -> string; }\nworld w { import i; }\n", "parameter `ret-area` vs the import wrapper's `ret_area`")
+    add("fixed-maybe", "c-fixed-local-name-collision", r"redefinition of parameter 'maybe_x'",
+        "interface i { f: func(x: option<u32>, maybe-x: u32); }\nworld w { import i; }\n", "`maybe-x` next to the flattened option `x`")
+    # names of Ns-allocated temporaries and out-pointers: must build
+    add("tmp-names", None, None,
+        "interface i { f: func(ptr: string, len: u32, ret: u32, err: u32, %result: option<string>, %variant: u8, %option: u8, payload: u8, arg: u8, arg0: u8, base: u8, e: u8, i: u8, ret0: u8, ptr0: u8, val: u8, ok: u8) -> result<string, string>; g: func(ret: string, err: string) -> option<string>; }\nworld w { import i; export i; }\n",
+        "names of generated temporaries and out-pointers as parameter names")
+    add("member-names", None, None,
+        "interface i { record r { ptr: string, len: u32, tag: u8, val: u8, is-some: bool, is-err: bool, f0: u8, ok: u8, err: u8 } variant v { tag(u8), val(string), ok, err(r) } f: func(a: r, b: v) -> tuple<r, v>; }\nworld w { import i; export i; }\n",
+        "names of generated struct members as field / case names")
+    # 6. collisions after mangling across kinds
+    add("coll-free", "c-name-collision-function-vs-helper", r"redefinition of 't_t_i_foo_free'|conflicting types for 't_t_i_foo_free'",
+        "interface i { record foo { s: string } foo-free: func(a: foo); }\nworld w { import i; }\n", "function `foo-free` vs free helper of `foo`")
+    add("coll-drop", "c-name-collision-function-vs-helper", r"conflicting types for 't_t_i_r_drop_own'|redefinition of 't_t_i_r_drop_own'",
+        "interface i { resource r { constructor(); } r-drop-own: func(a: u32); }\nworld w { import i; }\n", "function `r-drop-own` vs drop function of resource `r`")
+    add("coll-func-type", "c-name-collision-type", r"redefinition of 't_t_i_foo_t'",
+        "interface i { record foo { a: u32 } foo-t: func(a: foo); }\nworld w { import i; }\n", "function `foo-t` vs typedef of `foo`")
+    add("coll-anon", "c-name-collision-type", r"typedef redefinition|redefinition of",
+        "interface i { record r { a: u32 } record list-r { x: string } f: func(a: list<r>, b: list-r); }\nworld w { import i; }\n",
+        "named `list-r` vs the anonymous `list<r>`")
+    add("coll-world-anon", "c-name-collision-type", r"typedef redefinition|redefinition of",
+        "world w { record option-string { a: u32 } import f: func(a: option-string, b: option<string>); }\n",
+        "world-level `option-string` vs the shared anonymous `option<string>`")
+    add("coll-macro-enum", "c-name-collision-macro", r"macro redefined",
+        "interface i { enum foo { bar-baz, x } enum foo-bar { y, baz } f: func(a: foo, b: foo-bar); }\nworld w { import i; }\n",
+        "`foo`.`bar-baz` and `foo-bar`.`baz` define the same macro")
+    add("coll-macro-flags", "c-name-collision-macro", r"macro redefined",
+        "interface i { flags p { q-r, z } flags p-q { y, r } f: func(a: p, b: p-q); }\nworld w { import i; }\n",
+        "flags members define the same macro")
+    # same snake form in different namespaces / kinds that must NOT collide
+    add("coll-ns-boundary", "c-name-collision-type", r"redefinition of 't_t_a_b_c_t'|typedef redefinition",
+        "interface a-b { record c { x: string } f: func(a: c); }\ninterface a { record b-c { y: u32 } f: func(a: b-c); }\nworld w { import a-b; import a; export a-b; }\n",
+        "interface `a-b` type `c` vs interface `a` type `b-c`: the namespace/name boundary is lost")
+    rng.shuffle(W)
+    return W
